@@ -48,6 +48,7 @@ class StoreMachine(Machine):
     NAMES = ('a', 'b', 'c')          # logical file names in the project directory
     SLOTS = 3
     STEP_BUDGET = 400000
+    KEEP_AFTER_FAILED_OPEN = False
 
     def __init__(self, ctx):
         Machine.__init__(self, ctx)
@@ -299,7 +300,13 @@ class StoreMachine(Machine):
             if slot is not None:
                 self.objs[slot] = obj
         else:
-            if reuse is not None:
+            if reuse is not None and status == 'ioerr' and ctx.fs.fired and \
+                    ctx.fs.fired[-1][0] in ('EMFILE', 'EACCES') and self.KEEP_AFTER_FAILED_OPEN:
+                # the file could not even be opened: the caller still holds an object (as it
+                # was, or emptied) and goes on using it; whatever it writes from it later must
+                # read back as what the object then holds
+                ctx.probes['reused_object_kept_after_failed_open'] += 1
+            elif reuse is not None:
                 # a read that failed part-way leaves the re-used object half-filled: drop it
                 for k in [k for k, o in self.objs.items() if o is reuse]:
                     del self.objs[k]
